@@ -19,7 +19,11 @@ pub enum Acc {
     CfmHeader,
 }
 
+#[cfg(feature = "full")]
 const MS_ACC: [Acc; 4] = [Acc::MsgHeader, Acc::T31Header, Acc::Radial, Acc::VolHeader];
+/// build-configuration variants: the model conversion and the volume header decoder do not exist
+#[cfg(not(feature = "full"))]
+const MS_ACC: [Acc; 2] = [Acc::MsgHeader, Acc::T31Header];
 const MIN_ACC: [Acc; 3] = [Acc::RdaBypass, Acc::RdaClutter, Acc::CfmHeader];
 
 impl Acc {
@@ -76,11 +80,13 @@ pub fn eval_decode(a: Acc, d: u32, t: u32) -> Caught<Option<i64>> {
             let m = dm::digital_radar_data::decode_digital_radar_data(&mut std::io::Cursor::new(b)).expect("decodes");
             m.header.date_time().map(|x| x.timestamp_millis())
         }
+        #[cfg(feature = "full")]
         Acc::Radial => {
             let b = t31_body(&T31Header::basic(1, 1, d as u16, t), &[], &Layout::default()).0;
             let m = dm::digital_radar_data::decode_digital_radar_data(&mut std::io::Cursor::new(b)).expect("decodes");
             m.radial().ok().map(|r| r.collection_timestamp())
         }
+        #[cfg(feature = "full")]
         Acc::VolHeader => {
             let mut vh = VolHeader::basic();
             vh.date = d;
@@ -88,6 +94,8 @@ pub fn eval_decode(a: Acc, d: u32, t: u32) -> Caught<Option<i64>> {
             let h = nexrad_data::volume::Header::deserialize(&mut vh.encode().as_slice()).expect("decodes");
             h.date_time().map(|x| x.timestamp_millis())
         }
+        #[cfg(not(feature = "full"))]
+        Acc::Radial | Acc::VolHeader => machinery("accessor does not exist in this build configuration"),
         Acc::RdaBypass | Acc::RdaClutter => {
             let mut hw = rda_in_domain();
             let base = if a == Acc::RdaBypass { 18 } else { 20 };
@@ -121,11 +129,13 @@ fn eval_fast(c: &mut Carriers, a: Acc, d: u16, t: u32) -> Option<i64> {
             c.t31.header.time = t;
             c.t31.header.date_time().map(|x| x.timestamp_millis())
         }
+        #[cfg(feature = "full")]
         Acc::Radial => {
             c.t31.header.date = d;
             c.t31.header.time = t;
             c.t31.radial().ok().map(|r| r.collection_timestamp())
         }
+        #[cfg(feature = "full")]
         Acc::VolHeader => {
             let mut vh = VolHeader::basic();
             vh.date = d as u32;
@@ -133,6 +143,8 @@ fn eval_fast(c: &mut Carriers, a: Acc, d: u16, t: u32) -> Option<i64> {
             let h = nexrad_data::volume::Header::deserialize(&mut vh.encode().as_slice()).ok()?;
             h.date_time().map(|x| x.timestamp_millis())
         }
+        #[cfg(not(feature = "full"))]
+        Acc::Radial | Acc::VolHeader => machinery("accessor does not exist in this build configuration"),
         Acc::RdaBypass => {
             c.rda.bypass_map_generation_date = d;
             c.rda.bypass_map_generation_time = t as u16;
@@ -272,7 +284,10 @@ pub fn run(ctx: &'static Ctx) -> (&'static str, Value, Vec<&'static str>) {
     }
     for d in [65_536u32, 65_537, 0x0001_0001, 0x7FFF_FFFF, 0xFFFF_FFFF] {
         for t in [0u32, 86_399_999, 0xFFFF_FFFF] {
+            #[cfg(feature = "full")]
             judge(ctx, Acc::VolHeader, d, t, eval_decode(Acc::VolHeader, d, t), &mut s3);
+            #[cfg(not(feature = "full"))]
+            let _ = (d, t);
         }
     }
 
@@ -310,7 +325,7 @@ pub fn run(ctx: &'static Ctx) -> (&'static str, Value, Vec<&'static str>) {
             |(mut st, mut c), (d, k)| {
                 let lo = k * 100_000;
                 let mut n = 0u64;
-                for a in [Acc::MsgHeader, Acc::T31Header, Acc::Radial] {
+                for a in MS_ACC.iter().copied().filter(|a| *a != Acc::VolHeader) {
                     let mut t = lo + (d % ms_step);
                     while t < lo + 100_000 {
                         let g = guarded(|| eval_fast(&mut c, a, d as u16, t));
@@ -324,7 +339,7 @@ pub fn run(ctx: &'static Ctx) -> (&'static str, Value, Vec<&'static str>) {
                 // the data crate's accessor re-decodes 24 bytes each time: every 5th ms in thorough
                 let vstep = ms_step * 5;
                 let mut t = lo + (d % vstep);
-                while t < lo + 100_000 {
+                while cfg!(feature = "full") && t < lo + 100_000 {
                     let g = guarded(|| eval_fast(&mut c, Acc::VolHeader, d as u16, t));
                     if g != Caught::Ret(Some(expected(Acc::VolHeader, d, t))) {
                         judge(ctx, Acc::VolHeader, d, t, eval_decode(Acc::VolHeader, d, t), &mut st);
